@@ -1,25 +1,21 @@
 #!/usr/bin/env python3
-"""Refreshes the two generated tables of DESIGN.md section 12 (between the HTML comment markers)."""
+"""Refreshes the seeded-change table of DESIGN.md section 12.1 (between the HTML comment markers) from
+the meta.json files under /verif/seeded. (The revert table of 12.2 was generated once by
+collect_reverts.py from run logs that lived under /tmp; it is kept as it is.)"""
 import os
-import subprocess
 import sys
 
 ROOT = os.path.dirname(os.path.dirname(os.path.abspath(__file__)))
-
-
-def table(tool):
-    out = subprocess.run([sys.executable, os.path.join(ROOT, "tools", tool)], stdout=subprocess.PIPE, text=True).stdout
-    lines = [l for l in out.splitlines() if l.startswith("|")]
-    return "\n".join(lines)
+sys.path.insert(0, os.path.join(ROOT, "tools"))
+import collect_seeds  # noqa: E402
 
 
 def main():
     p = os.path.join(ROOT, "DESIGN.md")
     s = open(p).read()
-    for tool, tag in (("collect_seeds.py", "SEED-TABLE"), ("collect_reverts.py", "REVERT-TABLE")):
-        b, e = f"<!-- {tag}-BEGIN -->", f"<!-- {tag}-END -->"
-        i, j = s.index(b) + len(b), s.index(e)
-        s = s[:i] + "\n" + table(tool) + "\n" + s[j:]
+    b, e = "<!-- SEED-TABLE-BEGIN -->", "<!-- SEED-TABLE-END -->"
+    i, j = s.index(b) + len(b), s.index(e)
+    s = s[:i] + "\n" + collect_seeds.design_table() + "\n" + s[j:]
     open(p, "w").write(s)
 
 
